@@ -1985,4 +1985,75 @@ theorem call_replicas_bound (br : BR) (op : Op) (c : Cfg) (w : World) (exp : Exp
     omega
 
 
+/-! ## WaitResume: `Finalize` returning nil means the stored stable Deployment is resumed -/
+
+theorem stableFinalize_wait (c : Cfg) (br : BR) (s : S) (hok : (stableFinalize c br s).2 = .ok)
+    (hwr : br.waitResume = true) (hst : s.stable ≠ none) :
+    ∃ d, (stableFinalize c br s).1.w.find br.key = some d ∧ waitAllUpdatedAndReady d = .ok := by
+  unfold stableFinalize at hok ⊢
+  cases hs : s.stable with
+  | none => exact absurd hs hst
+  | some st0 =>
+    simp only [hs] at hok ⊢
+    by_cases ht : (c.tick true s.n).1 = true
+    · simp only [ht, if_true] at hok; cases hok
+    · simp only [ht, hwr, if_true, if_false] at hok ⊢
+      simp only [Bool.false_eq_true, if_false] at hok ⊢
+      cases hd : (s.w.modify br.key (releaseStable br.partition.isSome)).find br.key with
+      | none => rw [hd] at hok; cases hok
+      | some d =>
+        rw [hd] at hok
+        exact ⟨d, hd, hok⟩
+
+theorem finTail_wait (c : Cfg) (br : BR) (s : S) (hok : (finTail c br s).2 = .ok)
+    (hwr : br.waitResume = true) (hst : s.stable ≠ none) :
+    ∃ d, (s.w.modify br.key (releaseStable br.partition.isSome)).find br.key = some d ∧
+      waitAllUpdatedAndReady d = .ok := by
+  unfold finTail at hok
+  have hspec := stableFinalize_spec c br s
+  have hwait := stableFinalize_wait c br s
+  generalize stableFinalize c br s = r2 at hok hspec hwait
+  obtain ⟨s2, o2⟩ := r2
+  simp only at hspec hwait
+  obtain ⟨_, _, _, _, hw⟩ := hspec
+  cases o2
+  case ok =>
+    obtain ⟨d, hd, hwd⟩ := hwait rfl hwr hst
+    rcases hw with ⟨_, h⟩ | ⟨_, h⟩
+    · exact absurd (h rfl) hst
+    · rw [h] at hd; exact ⟨d, hd, hwd⟩
+  all_goals (dsimp only at hok; cases hok)
+
+theorem planeFinalize_wait (c : Cfg) (br : BR) (w : World) (exp : Exp)
+    (hok : (planeFinalize c br (S0 w exp)).2 = .ok) (hwr : br.waitResume = true) :
+    w.find br.key = none ∨
+    ∃ d, (w.modify br.key (releaseStable br.partition.isSome)).find br.key = some d ∧
+      waitAllUpdatedAndReady d = .ok := by
+  unfold planeFinalize at hok
+  have hb := buildStable_spec c br (S0 w exp)
+  have hno := buildStable_not_failok c br (S0 w exp)
+  generalize buildStable c br (S0 w exp) = r1 at hok hb hno
+  obtain ⟨s1, o1⟩ := r1
+  simp only [S0] at hb hno
+  obtain ⟨hw1, _, _, _, hokb, _, hnf⟩ := hb
+  cases o1 with
+  | ok st =>
+    dsimp only at hok
+    right
+    have hs1 : s1.stable ≠ none := by rw [(hokb st rfl).1]; simp
+    have := finTail_wait c br s1 hok hwr hs1
+    rw [hw1] at this
+    exact this
+  | fail x =>
+    cases x
+    case err => dsimp only at hok; cases hok
+    case panic => dsimp only at hok; cases hok
+    case ok => exact absurd rfl hno
+    case notFound => left; exact (hnf rfl).2
+
+/-- the wait looks at nothing the finalizer removals touch -/
+theorem wait_dropFn {ids : List Nat} {d d' : Dep} (h : dropFn ids d = some d') :
+    waitAllUpdatedAndReady d' = waitAllUpdatedAndReady d := by
+  rcases dropFn_some h with h | ⟨_, h⟩ <;> subst h <;> rfl
+
 end RV.CtlCanary
